@@ -34,6 +34,8 @@ ASSUMPTIONS = [
     "character / the end of a non-final line; an ignored or invalid character directly after the escape character or "
     "directly ending a control word (plasTeX's character reader documents that it drops category 9/15 characters)",
     "a fresh TeX() has no \\let aliases, so Context.get_let is the identity on every token",
+    "stream deftable pins the default categories plain TeX prescribes (TeXbook p. 343) with the newline standing for the "
+    "end-of-line character; CR, FF and DEL are not pinned",
 ]
 
 KNOWN = known_keys(PROPERTY)
@@ -367,12 +369,12 @@ RULE_COMMON = ("Non-trivial: the expected stream involves >=2 of {control word, 
                "Excluded constructs are removed by construction (character deleted where the model flags it; "
                "classes 'repaired:*').")
 STREAMS = [
-    Stream("atoms", "given", atom_cases, check, budget={"quick": 2000, "thorough": 50000}, timeout=10.0,
+    Stream("atoms", "given", atom_cases, check, budget={"quick": 1500, "thorough": 50000}, timeout=10.0,
            hang_is_violation=True,
            rule="<=40 atoms from %d adversarial atoms joined to a string x table in {default, @=11, verbatim} "
                 "followed by 0-6 Context.catcode(ch, code) calls (ch from %d chars, code 0-15). " % (len(ATOMS), len(OPCHARS))
                 + RULE_COMMON),
-    Stream("rawtext", "given", raw_cases, check, budget={"quick": 400, "thorough": 8000}, timeout=10.0,
+    Stream("rawtext", "given", raw_cases, check, budget={"quick": 300, "thorough": 8000}, timeout=10.0,
            hang_is_violation=True,
            rule="1/3 hypothesis st.text(max_size=40), 2/3 up to 25 chunks each an atom, st.text(max_size=3) or a raw control / "
                 "exotic Unicode character, x the same tables. "
@@ -381,7 +383,7 @@ STREAMS = [
            rule="every string of length <= %d (thorough: <= %d) over %r under the default and the @-letter table (complete). " %
                 (SHORT_MAXLEN["quick"], SHORT_MAXLEN["thorough"], "".join(SHORT_ALPHABET)) + RULE_COMMON),
     Stream("fuzz", "fuzz", lambda tier: ("fuzz/C01_target.py", ["-max_len=80"]), check,
-           budget={"quick": 1200, "thorough": 300000}, timeout=10.0, hang_is_violation=True,
+           budget={"quick": 1000, "thorough": 300000}, timeout=10.0, hang_is_violation=True,
            rule="atheris/libFuzzer coverage-guided campaign per worker (plasTeX instrumented; odd workers start from the "
                 "strings of unittests/Tokenizer.py, even workers from an empty corpus): bytes -> utf-8 text (errors ignored, "
                 "<=64 chars) x table (base + 0-6 catcode ops taken from the end of the input), same oracle inside the target; "
